@@ -7,11 +7,17 @@ PROP = 'C11'
 def run(tier, seed):
     return netcheck.run_net(PROP, tier, seed,
         profiles=[('lra', 150, 1500, 40)],
-        rule='seeded requests of <, <=, =, >=, > between linear expressions (constants, repeated and cancelling variables, '
+        rule='(0) every transition of the state graph of the implementation-shaped model LraCreate (new_var(lin) with its two lookups, the substitution of the slack variables by their rows, the constant case and the fresh slack variable with the bounds / value of its expression; new_lt / new_leq / new_geq / new_gt as written - the bound with its infinitesimal, the constant answers decided by the bounds of the expression and of the slack variable, the assertion cache -, new_eq as the conjunction built by the sat core; spec/LraCreateGen.tla prints one test per transition) replayed on the real lra_theory: the variable / literal answered, the number of propositional variables and the bounds and value of every arithmetic variable compared with the model after every call; deviating executions are decided by NetworkTrace; '
+             'seeded requests of <, <=, =, >=, > between linear expressions (constants, repeated and cancelling variables, '
              'derived variables that are basic in the tableau, rational coefficients) before and after root-level constraints '
              'tightened the bounds; a returned constant must be entailed in every model (Fourier-Motzkin), a returned literal '
              'is given its relation as meaning and every later value, bound, learnt clause and answer is judged against it; a '
              'request never changes the set of models; distinct_nontrivial = distinct executions with a relation request',
+        models=[('MC_LraCreate', 'MC_LraCreate_A.cfg', 'MC_LraCreate_A.cfg',
+                 'implementation-shaped model of the creation-time logic of lra_theory on top of the model of the sat core constructors: RelationMeaning (on every grid point of the box the answer - constant, assertion literal with its infinitesimal, conjunction - holds exactly where the requested relation does), SlackConsistent, RowsOverPlain over every request with coefficients in -1..2 over 2 plain variables and an optional derived one, under 4 boxes of bounds', None),
+                ('MC_LraCreate', 'MC_LraCreate_B.cfg', 'MC_LraCreate_B.cfg',
+                 'the same model, two requests in a row from a pool of expressions that share slack variables and assertions (same expression with another operator / constant, scaled, negated, over a derived variable)', None)],
+        lracreate=(['LraCreateGen_A.cfg', 'LraCreateGen_B.cfg'], ['LraCreateGen_A.cfg', 'LraCreateGen_B.cfg']),
         release_too=True,
         assumptions=['at most 6 theory atoms and 5 arithmetic variables per execution'])
 
